@@ -22,7 +22,8 @@ fn redeem_info(p: &Arc<RedeemNode>) -> J {
     let mut nodes = vec![];
     for it in (&**p).post_order_iter::<InternalSharing>() {
         let n = it.node;
-        let wit = if let Inner::Witness(v) = n.inner() { bits_j(v.iter_compact()) } else { J::Null };
+        // a witness value as it is attached to the node: its compact bits, its own type and its padded bits
+        let wit = if let Inner::Witness(v) = n.inner() { json!([bits_j(v.iter_compact()), ty_cz(v.ty()), bits_j(v.iter_padded())]) } else { J::Null };
         nodes.push(json!({"cmr": n.cmr().to_string(), "ihr": n.ihr().to_string(), "amr": n.amr().to_string(),
                           "arrow": [ty_cz(&n.arrow().source), ty_cz(&n.arrow().target)], "wit": wit}));
     }
@@ -275,6 +276,15 @@ pub fn record_c01(runs: usize, path: &str) {
                 typed_witness_pair(t, &Ty::word(1))
             } else { typed_witness_pair(&rand_small_ty(&mut rng, 3), &Ty::word(rng.below(4))) }
         } else { dag };
+        // the first program is fixed: two copies of `injl unit` under a disconnect whose attached branch forces the type of
+        // the second one (comp (disconnect (drop (pair (injl unit) (injl unit))) t) unit) -- commitment-time serialisation
+        // of a program whose types depend on a branch that is not serialised
+        let dag = if attempts == 1 {
+            json!([["unit", 0, 0], ["injl", 1, 0], ["unit", 0, 0], ["injl", 3, 0], ["pair", 2, 4], ["drop", 5, 0],
+                   ["iden", 0, 0], ["unit", 0, 0], ["pair", 7, 8], ["unit", 0, 0], ["case", 10, 10], ["comp", 9, 11],
+                   ["take", 12, 0], ["unit", 0, 0], ["case", 14, 13], ["iden", 0, 0], ["unit", 0, 0], ["pair", 16, 17], ["comp", 18, 15],
+                   ["disc", 6, 19], ["unit", 0, 0], ["comp", 20, 21]])
+        } else { dag };
         let n = dag.as_array().unwrap().len();
         let mut ty = vec![J::Null; n];
         ty[n - 1] = json!([["1"], ["1"]]);
@@ -291,7 +301,7 @@ pub fn record_c01(runs: usize, path: &str) {
             if nd[0] == "witness" { auxv[i] = Ty::from_final(&ty_of(&full_ty[i][1])).rand_val(&mut rng); }
         }
         if let Some(v) = fixed_w1 { auxv[0] = v; }
-        let prune_it = rng.chance(1, 3);
+        let prune_it = attempts != 1 && rng.chance(1, 3);
         let ev = guarded(|| {
             types::Context::with_context(|ctx| {
                 let (mut redeem, _, built) = match build_typed(&ctx, fam, &dag, &json!(full_ty), &json!(auxv)) { Ok(x) => x, Err(_) => return J::Null };
@@ -355,6 +365,13 @@ pub fn record_c02(runs: usize, path: &str) {
         if let Some((what, pb, wb)) = structural_mutation(&mut rng, &p, &w, &widths, force_dup) {
             out.emit(&json!({"ev": "decode", "pb": bits_of_bytes(&pb), "wb": bits_of_bytes(&wb), "nbytes": pb.len() + wb.len(), "mutation": what, "got": decode_all(&pb, &wb)}));
             if force_dup { dups += 1; } else { made += 1; }
+        }
+    }
+    // witnesses with sums of two different, equally wide types: the valid encoding and every single-bit change of its witness bytes
+    for (k, (pb, w)) in equal_width_encodings().into_iter().enumerate() {
+        if runs < 2000 && k % 3 != (runs % 3) { continue; }          // the quick tier takes a third of them (which third depends on the run count)
+        for wb in std::iter::once(w.clone()).chain(single_bit_changes(&w)) {
+            out.emit(&json!({"ev": "decode", "pb": bits_of_bytes(&pb), "wb": bits_of_bytes(&wb), "nbytes": pb.len() + wb.len(), "mutation": "witness-bit", "got": decode_all(&pb, &wb)}));
         }
     }
     for k in 0..runs {
@@ -545,4 +562,57 @@ fn structural_mutation(rng: &mut Rng, pb: &[u8], wb: &[u8], wit_widths: &[usize]
             }
         }
     }
+}
+
+/// Valid Elements encodings whose first witness has a sum of two different, equally wide types somewhere in its type
+/// (`equal_width_cases`: every such type with every value of it), followed by a second, one-bit witness: the witness
+/// stream of such a program is where an error in the padding bookkeeping of sums shows.  Used by C02 and C03, which
+/// also offer every single-bit change of the witness bytes.
+pub fn equal_width_encodings() -> Vec<(Vec<u8>, Vec<u8>)> {
+    let mut out = vec![];
+    for (k, (t, v)) in equal_width_cases().into_iter().enumerate() {
+        let dag = typed_witness_pair(&t, &Ty::word(1));
+        let n = dag.as_array().unwrap().len();
+        let mut ty = vec![J::Null; n];
+        ty[n - 1] = json!([["1"], ["1"]]);
+        let aux0 = json!(vec![json!(["none"]); n]);
+        let r = guarded(|| {
+            types::Context::with_context(|ctx| {
+                let (_, _, built) = build_typed(&ctx, Family::Elements, &dag, &json!(ty), &aux0).ok()?;
+                let full_ty: Vec<J> = built.iter().map(|b| { let a = b.arrow().finalize().unwrap(); json!([ty_j(&a.source), ty_j(&a.target)]) }).collect();
+                let mut auxv = vec![json!(["u"]); n];
+                auxv[0] = v.clone();
+                auxv[1] = json!(["P", if k % 2 == 0 { json!(["L", ["u"]]) } else { json!(["R", ["u"]]) }, if k % 3 == 0 { json!(["L", ["u"]]) } else { json!(["R", ["u"]]) }]);
+                let (redeem, _, _) = build_typed(&ctx, Family::Elements, &dag, &json!(full_ty), &json!(auxv)).ok()?;
+                Some(redeem.to_vec_with_witness())
+            })
+        });
+        if let Ok(Some(pw)) = r { out.push(pw); }
+    }
+    out
+}
+/// the witness bytes with each single bit changed
+pub fn single_bit_changes(w: &[u8]) -> Vec<Vec<u8>> {
+    (0..w.len() * 8).map(|i| { let mut x = w.to_vec(); x[i / 8] ^= 1 << (7 - i % 8); x }).collect()
+}
+
+/// probe: build a construction DAG (Core, JSON file), finalise its types to a CommitNode, serialise it and decode the bytes
+pub fn commit_probe(path: &str) {
+    let dag: J = serde_json::from_str(&std::fs::read_to_string(path).unwrap()).unwrap();
+    let n = dag.as_array().unwrap().len();
+    let ty = json!(vec![J::Null; n]);
+    let aux = json!(vec![json!(["none"]); n]);
+    types::Context::with_context(|ctx| {
+        let (_, _, built) = build_typed(&ctx, Family::Core, &dag, &ty, &aux).expect("builds");
+        let cm = built.last().unwrap().finalize_types().expect("well-typed");
+        for it in (&*cm).post_order_iter::<InternalSharing>() {
+            println!("  {:3} {:<40} ihr {}", it.index, format!("{}", it.node.arrow()), it.node.ihr().map(|x| x.to_string()).unwrap_or("-".into()));
+        }
+        let bytes = cm.to_vec_without_witness();
+        println!("commit program: cmr {} bytes {}", cm.cmr(), crate::c15::hex(&bytes));
+        match CommitNode::decode::<_, Core>(BitIter::from(&bytes[..])) {
+            Ok(d) => println!("decodes: cmr {} same {}", d.cmr(), d.cmr() == cm.cmr()),
+            Err(e) => println!("DECODE ERROR: {}", e),
+        }
+    });
 }
